@@ -156,10 +156,12 @@ class Prop:
                     b.mod = pb
             for b in builds:
                 G_BUILDS[b.tag] = b
+            log('parse done at %.1fs' % (time.time() - t0))
             log('builds: ' + ', '.join('%s (%.1fs, %d functions)' % (b.tag, b.compile_s, sum(1 for f in b.mod.funcs.values() if f.defined)) for b in builds))
             n_t = 200 if tier == 'quick' else 5000
             tstats = tcheck(builds, wd, seed, n_t, log)
             log('T-check: %r' % tstats)
+            log('T-check done at %.1fs' % (time.time() - t0))
             if tstats['mismatches']:
                 raise Infra('translator mismatch: generated C and the real code disagree on %d inputs (see %s)' % (tstats['mismatches'], logf.name))
         except Infra as e:
